@@ -644,7 +644,8 @@ class DeployEngine(object):
                     if xy in self.m.chips else 1023 for xy in tables}
         if k == 2:
             w.probe("minimise_target_forced")
-            return {xy: max(1, len(tb) - 1 - t.draw(3))
+            # around the table size: exactly equal, one more, a few fewer
+            return {xy: max(0, len(tb) + 1 - t.draw(5))
                     for xy, tb in tables.items()}
         return [0, 1, 2][t.draw(3)]
 
